@@ -37,6 +37,8 @@ MANIFEST = dict(
     design="6 C10",
     engines=[dict(name="E-sem", path="harness/src/eng_sem.rs + coq/extract/eng_sem.ml",
                   kind_free_text="differential: ProjectManager::generate_goto_definitions / generate_completion_proposals on a rendered temp workspace (positional queries) vs the extracted Coq scoping model (abstract queries); answers = ordered (target stem, selection range) lists / sorted label lists"),
+             dict(name="E-deftree", path="harness/src/eng_deftree.rs + coq/extract/eng_deftree.ml",
+                  kind_free_text="two-phase differential: real lexer+parser+ProjectManager (one-file temp workspace) go-to-definition and completion at the start / middle / end of every identifier token vs the extracted DefTree.definition / DefTree.completion on the dumped tree; parts needing another document are classified Outside by the model and skipped (counted); C10_tree_* / C11_tree_* tie these answers to the abstract model on entity_of_tree"),
              dict(name="E-annot", path="harness/src/eng_annot.rs + coq/extract/eng_annot.ml",
                   kind_free_text="two-phase differential: real lexer+parser+AstAnnotator (full and definitions-only mode; root table and every method node's table: for_class_or_module, symbols in iter_symbols order with id / SymbolType / selection_range / range, uses) vs the extracted Coq model Annot.annotate on the dumped tree; C10_tables_from_tree* tie these tables to Scoping.root_table / method_table")],
 )
